@@ -163,6 +163,25 @@ fn differential(rep: &mut Report, local: &[u8; 32], data: &[u8], origin: &str, w
         }
         Ok(i) => i,
     };
+    // whatever is accepted: the authenticated bytes handed out are the datagram's own IV and
+    // unmasked header (static part and auth-data, as long as its size field says), byte for byte
+    if let Ok(d) = &i {
+        if data.len() >= 39 {
+            let mut iv = [0u8; 16];
+            iv.copy_from_slice(&data[..16]);
+            let mut unmasked = data[16..].to_vec();
+            codec_ref::mask(local, &iv, &mut unmasked);
+            let auth_size = u16::from_be_bytes([unmasked[21], unmasked[22]]) as usize;
+            if 23 + auth_size <= unmasked.len() {
+                let mut wire = data[..16].to_vec();
+                wire.extend_from_slice(&unmasked[..23 + auth_size]);
+                rep.count("authenticated_bytes_compared_with_datagram");
+                if d.authenticated_data != wire {
+                    rep.violation("C05:authenticated-bytes-differ-from-datagram", format!("the authenticated data returned for an accepted datagram ({} bytes) is not the datagram's IV and unmasked header ({} bytes) ({origin})", d.authenticated_data.len(), wire.len()), replay("aad"));
+                }
+            }
+        }
+    }
     match (&i, &r) {
         (Ok(d), Ok(rd)) => {
             rep.count("both_accept");
